@@ -6,7 +6,7 @@
 //! Op lines (family tag `ct`, mirrored by lean/JrpcVerif/Driver/ClientTasksFamily.lean):
 //!   ct call | ct subscribe | ct batch <n> | ct notify
 //!   | ct deliver <text hex> | ct fault send_err <k> | ct fault recv_err <k> | ct fault peer_close
-//!   | ct fault garbage <text hex> | ct gate send|close|recv open|shut | ct probe | ct end
+//!   | ct fault garbage <text hex> | ct gate send|close|recv|all open|shut | ct probe | ct end
 //!   | ct deliverbytes <hex> | ct deepdeliver <depth>          (outside the text model: `#skip` from there on)
 //! Front-end operations are numbered 0,1,2,… in script order (ticket), notifications included.
 //!
@@ -467,7 +467,12 @@ impl FaultSession {
 					"shut" => false,
 					_ => return bad(obs),
 				};
-				if !self.set_gate(which, open) {
+				if *which == "all" {
+					// all three at once (send, receive, close in this order): the tasks are released in the same round
+					for g in ["send", "recv", "close"] {
+						self.set_gate(g, open);
+					}
+				} else if !self.set_gate(which, open) {
 					return bad(obs);
 				}
 				self.settle(&mut obs).await;
